@@ -579,6 +579,23 @@ def holds(spec, c, P):
                 return _b(x["start"] > v if strict else x["start"] >= v)
             return _b(x["end"] < v if strict else x["end"] <= v)
         if k == "TaskPrecedence":
+            if isinstance(c["before"], dict) or isinstance(c["after"], dict):
+                # precedence between task groups: every scheduled task of the first group is completed
+                # (plus the offset) before any scheduled task of the second one starts
+                by_id = {x.get("id"): x for x, _ in all_constraints(spec)}
+
+                def members(x):
+                    names = by_id[x["group"]]["tasks"] if isinstance(x, dict) else [x]
+                    return [tk[n] for n in names if tk[n]["scheduled"]]
+                A, Bm = members(c["before"]), members(c["after"])
+                if not A or not Bm:
+                    return T
+                lower = max(x["end"] for x in A) + (c.get("offset") or 0)
+                upper = min(x["start"] for x in Bm)
+                m = c.get("mode") or "lax"
+                if m == "tight":
+                    return B if lower <= upper else F      # the groups' own bounds are free: 'tight' is not pinned down
+                return _b(lower <= upper if m == "lax" else lower < upper)
             a, b = tk[c["before"]], tk[c["after"]]
             if not (a["scheduled"] and b["scheduled"]):
                 return T
